@@ -731,6 +731,35 @@ fn classify(verts: &[VRec], vi: usize, a: Point, b: Point, from: EndpointId, to:
     "generic"
 }
 
+/// Witness class `beyond-edge-end` of an edge-source parameter outside `[0,1]` (finding
+/// `C07-split-parameter-beyond-edge-end`): the input edge A→B is flatter than 45 degrees in sweep
+/// space, so `split_edge` (`process_edges_above`) and `merge_coincident_edges` locate their split
+/// point along x (`solve_t_for_x`); some output vertex W is treated as lying on the edge although
+/// its sweep-x is BEYOND the edge's x-extent: W is within half the tolerance (+ rounding) of the
+/// carrier line, between the edge's ends in sweep order, but beyond one of them in x
+/// (`is_edge_connecting` accepts `max_x + threshold >= x`; for two coincident pending edges the
+/// flatter one that ends earlier in sweep order may reach further in x, on either side). The reported parameter
+/// lies between the end of the range and W's own x-parameter `(W.x - A.x) / (B.x - A.x)` (equal to
+/// it when the vertex is W itself; in between when the sliver W→end was cut again).
+fn beyond_edge_end(verts: &[VRec], a: Point, b: Point, t: f64, o: Orientation, half_tol: f64, lt: f64) -> bool {
+    let (sa, sb) = (sweep(a, o), sweep(b, o));
+    let (dx, dy) = (sb.x as f64 - sa.x as f64, sb.y as f64 - sa.y as f64);
+    if !(dy.abs() < dx.abs()) {
+        return false;
+    }
+    let (upper, lower) = if is_after(sa, sb) { (sb, sa) } else { (sa, sb) };
+    verts.iter().any(|w| {
+        let sw = sweep(w.pos, o);
+        if is_after(sw, lower) || is_after(upper, sw) || project(a, b, w.pos).1 > half_tol + lt {
+            return false;
+        }
+        // W's parameter along x is outside [0,1] although W is between the ends in sweep order
+        let tw = (sw.x as f64 - sa.x as f64) / dx;
+        let slack = 1e-5 + 1e-3 * (tw - tw.clamp(0.0, 1.0)).abs();
+        (tw > 1.0 && t > 1.0 && t <= tw + slack) || (tw < 0.0 && t < 0.0 && t >= tw - slack)
+    })
+}
+
 /// position in sweep space (`Orientation::Horizontal` rotates the input by a quarter turn)
 fn sweep(p: Point, o: Orientation) -> Point {
     match o {
@@ -1121,6 +1150,12 @@ fn check_run_inner(spec: &Spec, at: &AttrSpec, cfg: &Cfg, run: &Run, orc: &mut F
                                     // narrow: the vertex IS the point at parameter t of the edge's carrier line, but t is
                                     // outside [0,1] (an extrapolated, flipped cut-off part)
                                     let mut class = if lc == Some("level-edge-rounding") && !range_ok && d <= env { "level-edge-rounding" } else { "generic" };
+                                    // narrow: the parameter is extrapolated (the vertex IS at `lerp(t)` up to the envelope)
+                                    // because a vertex beyond the x-extent of a flat edge was accepted as lying on it
+                                    // (disjoint from the repaired split defect, whose parameter was in range and off the vertex)
+                                    if class == "generic" && !range_ok && d <= env && beyond_edge_end(&run.verts, g.a, *b, tt, cfg.orientation, 0.5 * cfg.tol as f64, lvl) {
+                                        class = "beyond-edge-end";
+                                    }
                                     if class == "generic" {
                                         class = classify(&run.verts, vi, g.a, *b, from, to, tt, env + cfg.tol as f64 + 1e-3, 0.0, 1.0);
                                     }
@@ -1689,6 +1724,111 @@ fn corpus_history(ctx: &mut Ctx) {
     }
 }
 
+/// one oracle-only case on a new tessellator object (affine attribute so that the extrapolated
+/// attribute is visible in the detail text of the affine clause as well)
+fn plain_fill_case(ctx: &mut Ctx, make: impl FnOnce(&mut Rng) -> (Spec, Cfg)) {
+    ctx.case("fill", |rng| {
+        let (spec, cfg) = make(rng);
+        let co = vec![[1.0f32, 0.5, 0.25]];
+        let values = spec.endpoints().iter().map(|p| vec![co[0][0] + co[0][1] * p.x + co[0][2] * p.y]).collect();
+        let at = AttrSpec { n: 1, values, affine: Some(co) };
+        let mut args = Out::new();
+        args.t(&spec.kind).u(1).t(&cfg.name().replace(' ', "-")).f(cfg.tol);
+        for p in spec.all_points() {
+            args.p(p);
+        }
+        let tag = format!("fill {} attrs=1 affine {}", spec.kind, cfg.name());
+        let hist = Hist::fresh();
+        (args, tag, move || fill_verdict(&spec, &at, &cfg, &hist))
+    });
+}
+
+/// Fixed witnesses of the open finding `beyond-edge-end` (given in sweep space, mapped back for
+/// `Orientation::Horizontal`); run after everything else so that the ids of the generated cases stay
+/// what they were.
+///  1. coincident merge: two triangles share the apex (0,0); the edges (0,0)→(100, 1/64) and
+///     (0,0)→(128, 15/1024) are within `THRESHOLD` in angle and the end of the second is 0.0054
+///     from the first one's line: merged; the second ends EARLIER in sweep order (smaller y) but
+///     28 further in x: the vertex (128, 15/1024) lists Edge{(0,0)→(100,1/64), t = 1.28}.
+///  2. edge split at a vertex, then cut: the flat edge B = (-10,-1)→(-0.01,0.001) passes 0.02 left
+///     of the vertex V = (0,0), which is 0.01 beyond B's end in x; another flat edge A passes 0.04
+///     left of V, so that V is found connecting; B is split at V with t = 1.001, and the sliver
+///     V→B.to is crossed by the flat edge (-5,0.0001)→(5,0.0009): that crossing lists
+///     Edge{B, t = 1.0005}.
+fn corpus_beyond_end(ctx: &mut Ctx) {
+    let merge = vec![
+        (vec![point(0.0, 0.0), point(100.0, 0.015625), point(50.0, -30.0)], true),
+        (vec![point(0.0, 0.0), point(128.0, 0.0146484375), point(70.0, 40.0)], true),
+    ];
+    let split = vec![
+        (vec![point(-12.0, -1.0), point(5.94, 0.5), point(-12.0, 3.0)], true),
+        (vec![point(-10.0, -1.0), point(-0.01, 0.001), point(-3.0, 5.0)], true),
+        (vec![point(0.0, 0.0), point(3.0, -4.0), point(4.0, -4.0)], true),
+        (vec![point(-5.0, 0.0001), point(5.0, 0.0009), point(0.0, 8.0)], true),
+    ];
+    for (subs, kind) in [(merge, "corpus-beyond-end-merge"), (split, "corpus-beyond-end-split")] {
+        for orient in [Orientation::Vertical, Orientation::Horizontal] {
+            for entry in 0..3usize {
+                let subs = subs.clone();
+                plain_fill_case(ctx, move |_rng| {
+                    let mut spec = Spec::poly(subs, kind);
+                    spec.transform(&|p| unsweep(p, orient));
+                    (spec, Cfg { rule: FillRule::NonZero, orientation: orient, tol: 0.1, entry })
+                });
+            }
+        }
+    }
+}
+
+/// Targeted search around the two witnesses (randomised magnitudes, slopes, overshoots, tolerances,
+/// orientation, entry point): any violation that is NOT of the class `beyond-edge-end` - a position
+/// off by more than the envelope, another clause - is reported as a new violation.
+fn beyond_case(ctx: &mut Ctx) {
+    plain_fill_case(ctx, |rng| {
+        let orient = if rng.chance(1, 2) { Orientation::Vertical } else { Orientation::Horizontal };
+        let entry = rng.below(3) as usize;
+        let rule = if rng.chance(1, 2) { FillRule::EvenOdd } else { FillRule::NonZero };
+        let tol = *rng.pick(&[0.01f32, 0.05, 0.1, 0.25, 1.0]);
+        let h = 0.5 * tol as f64;
+        let mirror = rng.chance(1, 2);
+        let kind;
+        let mut subs: Vec<(Vec<(f64, f64)>, bool)> = Vec::new();
+        if rng.chance(1, 2) {
+            kind = "beyond-end-merge";
+            // long edge (0,0)→(l, s·l); the other edge ends `drop` earlier in sweep order but reaches r·l further in x
+            let l = rng.log_uniform(0.0, 3.0).abs();
+            let s = rng.log_uniform(-5.0, -0.5).abs();
+            let r = rng.uniform(0.02, 1.0) * (4e-5 / s).min(1.0);
+            let room = (h - s * l * r).min((4.5e-5 - s * r) * l).min(0.9 * s * l);
+            let drop = rng.uniform(0.05, 1.0) * room.max(0.0);
+            subs.push((vec![(0.0, 0.0), (l, s * l), (0.5 * l, -0.3 * l)], true));
+            subs.push((vec![(0.0, 0.0), (l * (1.0 + r), s * l - drop), (0.7 * l, 0.4 * l)], true));
+        } else {
+            kind = "beyond-end-split";
+            // the flat edges A and B pass left of the vertex V = (0,0) within the threshold; B ends `over` short of V in x,
+            // just below it; the sliver V→B.to is crossed by the flat edge C
+            let l = rng.log_uniform(0.0, 2.0).abs();
+            let sl = rng.log_uniform(-2.0, -0.5).abs();
+            let ob = rng.uniform(0.15, 0.7) * h;
+            let oa = ob + rng.uniform(0.1, 0.28) * h;
+            let e = rng.uniform(0.1, 0.9) * ob;
+            let sa = sl / (1.0 + 2.0 * h / l + rng.uniform(0.0, 0.08));
+            let yt = 0.5 * sl * l;
+            subs.push((vec![(-oa - 1.3 * sl * l / sa, -1.3 * sl * l), (-oa + yt / sa, yt), (-1.3 * l, 3.0 * l)], true));
+            subs.push((vec![(-ob - l, -sl * l), (-ob + e, sl * e), (-0.3 * l, 0.5 * l)], true));
+            subs.push((vec![(0.0, 0.0), (0.3 * l, -0.4 * l), (0.4 * l, -0.4 * l)], true));
+            subs.push((vec![(-0.5 * l, 0.3 * sl * e), (0.5 * l, 0.7 * sl * e), (0.0, 0.8 * l)], true));
+        }
+        let m = if mirror { -1.0 } else { 1.0 };
+        let shift = (rng.range(-3, 3) as f64 * 16.0, rng.range(-3, 3) as f64 * 16.0);
+        let subs = subs
+            .into_iter()
+            .map(|(p, c)| (p.into_iter().map(|(x, y)| unsweep(point((m * x + shift.0) as f32, (y + shift.1) as f32), orient)).collect::<Vec<Point>>(), c))
+            .collect();
+        (Spec::poly(subs, kind), Cfg { rule, orientation: orient, tol, entry })
+    });
+}
+
 fn main() {
     let mut ctx = Ctx::from_args("C07");
     corpus(&mut ctx);
@@ -1710,5 +1850,10 @@ fn main() {
         fill_case(&mut ctx);
     }
     corpus_history(&mut ctx);
+    corpus_beyond_end(&mut ctx);
+    let n_beyond = ctx.n(240, 6000);
+    for _ in 0..n_beyond {
+        beyond_case(&mut ctx);
+    }
     ctx.finish();
 }
